@@ -321,7 +321,7 @@ def _run(ck, m):
                         badc.append('the pending table (%s)' % cb.loc(c))
                     ccb = P.bodies.get(callee(tc))
                     if ccb is not None and not is_log(tc) and not any(g in ccb.locals[0] for g in ('MutexGuard', 'RwLockReadGuard', 'RwLockWriteGuard')) \
-                            and not callee(tc).endswith('register_pending_opp'):
+                            and not callee(tc).endswith('register_pending_opp') and 'ClusterRole as std::cmp::PartialEq' not in callee(tc):
                         badc.append('%s (%s)' % (short(callee(tc)), cb.loc(c)))
             ck.ob('C14.d', short(cb.id), 'copy-sent-to-every-member', not badc,
                   'whether a member is sent its copy depends on the iteration, its role and its address only' if not badc else
